@@ -149,3 +149,6 @@ Definition outcol_eqb (a b : outcol) : bool :=
   | OStruct n f, OStruct n' f' => str_eqb n n' && list_eqb str_eqb f f'
   | _, _ => false
   end.
+(* a real kernel's physical result: every chunk well-formed (zero chunks allowed: filter with nothing selected) *)
+Definition wf_chunks_b (p : chunked) : bool :=
+  negb (length (ctype p) =? 0) && forallb (fun c => wf_chunk_b (ctype p) c && same_offsets_b c && lists_valid_b c) (chunks p).
